@@ -10,6 +10,7 @@ V  the tokens of the real d() output are lexed by the reference grammar and repl
    (robust to any legitimate change of the emitted text).
 """
 import random
+import re
 from fractions import Fraction
 
 from .. import pathmodel as pm
@@ -200,18 +201,26 @@ def run(ck):
     state = {'n': 0}
     every = 1 if quick else 12      # thorough: float concretisations / traces on every 12th path of the 390k; integer round trips on every 3rd
 
-    def on_case(c):
+    def on_case(c, light=False):
         abstract = c['path']
         state['n'] += 1
-        if not quick and len(abstract) >= 3 and state['n'] % 3:
+        if not quick and len(abstract) >= 3 and state['n'] % 3 and not light:
             return
-        full = (state['n'] % every == 0) or len(abstract) <= 2
+        full = ((state['n'] % every == 0) or len(abstract) <= 2) and not light
         p = pm.mkpath(abstract)
         nontriv = len(abstract) >= 2
         ck.sample('path/%d' % len(abstract), {'path': abstract, 'd': p.d()})
         for oi, o in enumerate(OPTSEQ):
             ck.case(fp=('i', state['n'], oi), nontrivial=nontriv)
             d = roundtrip(ck, p, o, 0, abstract, 'integer lattice')
+            # (i') conformance of the serialiser itself: the command letters d() writes are exactly the commands of PathD!Emit (incl. redundant movetos)
+            if d is not None:
+                real_cmds = re.findall(r'[MmLlCcSsQqTtAaZz]', d)
+                model_cmds = [g['c'] for g in c['emit'][oi]]
+                if real_cmds != model_cmds:
+                    ck.disagree(key='Path.d/commands-differ-from-PathD.Emit', site='svgpathtools/path.py:Path.d',
+                                what='d(%s) writes the commands %s, the model of the serialiser %s: %r' % (o, ''.join(real_cmds), ''.join(model_cmds), d),
+                                case={'path': abstract, 'opts': o}, expected=model_cmds, observed=real_cmds, driver='model-emit')
             # (ii) the model serialiser's output through the real parser
             text = pm.render(c['emit'][oi], rnd, 'plain')
             try:
@@ -249,6 +258,8 @@ def run(ck):
 
     dump = 'SPECIFICATION Spec\nCONSTANTS MaxSeg = %d\n Variant = "correct"\nINVARIANT Dump\n'
     ck.tlc('PathD', dump % (2 if quick else 3), workers=1, coverage=False, timeout=6000, on_case=on_case)
+    # every closed 3-segment path that passes through its closing point before the end (d() restarts the subpath there): integer round trips
+    ck.tlc('PathD', (dump % 3).replace('INVARIANT Dump', 'INVARIANT DumpRevisit'), workers=1, coverage=False, timeout=6000, on_case=lambda c: on_case(c, light=True))
     every = 1 if quick else 4
     for msl, num in ((3, 10), (4, 12)) if quick else ((4, 150), (5, 150)):
         ck.tlc('PathD', (dump % msl).replace('INVARIANT Dump', 'INVARIANT DumpFull'), workers=1, coverage=False,
